@@ -18,9 +18,10 @@ func (prop) ID() string { return "C12" }
 func (prop) Rule() string {
 	return "node-lite histories (real localstore + chunkinfo + pinning + traversal + netstore + retrieval + API server, a second real node as peer): 1-3 initial uploads / cached files, " +
 		"then 6-16 ops: uploads (45 % pinned) of files with identical content, chunk-aligned prefixes, repeated chunks and directories sharing files; raw /bytes uploads (70 % pinned, not known to chunkinfo); " +
-		"files cached from the peer (pyramid exchange + full or partial fetch); pin/unpin through the API; collection runs `gc c` with capacity 0-8 (synchronous, until done); read-back. " +
+		"files cached from the peer (pyramid exchange + full or partial fetch); pin/unpin through the API; collection runs `gc c` with capacity 0-8 (synchronous, until done); collection runs `gcr c trigger op target` in which a scripted operation (API pin / unpin of a file, read of one of its chunks under the file context) is executed " +
+		"inside the run's first DelFile call if that call is for the trigger file — i.e. after the run selected the candidate and before the deletion callback re-checks the dirty addresses — target = the candidate itself, a file sharing chunks with it, a later candidate or any file; in fixed cases `gcr2 c first second` (POST /pins of the first candidate inside the second DelFile call: after its callback, before the commit); read-back. " +
 		"Fixed regression histories for every known trigger first. After every op status and full symbolic dump (stored set, pin index, gc index, gcSize, pyramid refcounts, chunkinfo tables, state-store keys, pin list) are compared with the Lean model; " +
-		"the oracle compares the pin index before/after every run and checks Has for every pinned or uploaded chunk. Non-trivial: >=1 executed gc run with a non-empty gc index and >=1 pinned or uploaded chunk stored; distinct by op-list hash."
+		"the oracle compares the pin index before/after every run (for a run with a racing operation: before the run vs right before the operation, and right after the operation vs after the run) and checks Has for every pinned or uploaded chunk. Non-trivial: >=1 executed gc run with a non-empty gc index and >=1 pinned or uploaded chunk stored; distinct by op-list hash."
 }
 
 var fixed = []core.Case{
@@ -35,6 +36,21 @@ var fixed = []core.Case{
 	// a file cached first and uploaded afterwards keeps its root in the gc index: the run deletes the uploaded chunks (and pins)
 	{ID: "fix-cached-then-uploaded", NT: true, Ops: []string{"pup w/c 0", "pyr w/c", "up w/c 0", "gc 1", "read w/c"}},
 	{ID: "fix-cached-then-uploaded-pinned", NT: true, Ops: []string{"pup y/a 0", "pyr y/a", "up y/a 1", "gc 1", "read y/a", "pins"}},
+	// signature `.after-unpin` on every seed (so far produced only by chance, generated case g23 of seed 1): a pinned upload is unpinned (its root
+	// enters the gc index) and evicted; its chunks come back as cache of another file and are evicted again
+	{ID: "fix-unpinned-upload-evicted-recached", NT: true, Ops: []string{"up q/b+s/c 1", "unpin q/b+s/c", "gc 3", "pup p/a+q/b+r/c 0", "pyr p/a+q/b+r/c", "fetch p/a+q/b+r/c 0 1", "fetch p/a+q/b+r/c 2 1", "gc 1"}},
+	// operations racing with the eviction of the first candidate: they run after the collection entered DelFile for it and before the
+	// deletion callback re-checks the dirty addresses under batchMu — the candidate must be skipped, pins and chunks untouched
+	{ID: "fix-race-pin-candidate", NT: true, Ops: []string{"pup x/AB 0", "pyr x/AB", "fetch x/AB 0 11", "gcr 0 x/AB pin x/AB -", "read x/AB", "pins", "unpin x/AB"}},
+	{ID: "fix-race-pin-candidate-short", NT: true, Ops: []string{"pup w/c 0", "pyr w/c", "gcr 0 w/c pin w/c -", "read w/c", "gc 0"}},
+	{ID: "fix-race-get-candidate", NT: true, Ops: []string{"pup x/AB 0", "pyr x/AB", "fetch x/AB 0 11", "gcr 0 x/AB get x/AB d0", "read x/AB", "gc 0"}},
+	{ID: "fix-race-pin-later-candidate-sharing", NT: true, Ops: []string{"pup x/AB 0", "pyr x/AB", "fetch x/AB 0 11", "pup y/ABA 0", "pyr y/ABA", "fetch y/ABA 0 111", "gcr 0 x/AB pin y/ABA -", "read y/ABA", "read x/AB", "pins"}},
+	{ID: "fix-race-unpin-pinned-candidate", NT: true, Ops: []string{"pup y/ABA 0", "pyr y/ABA", "fetch y/ABA 0 100", "pin y/ABA", "fetch y/ABA 0 010", "gcr 0 y/ABA unpin y/ABA -", "pins", "gc 0"}},
+	{ID: "fix-race-pin-uploaded-sharing", NT: true, Ops: []string{"up z/AB 0", "pup x/AB 0", "pyr x/AB", "fetch x/AB 0 11", "gcr 0 x/AB pin z/AB -", "read z/AB", "pins"}},
+	{ID: "fix-race-not-first-candidate", NT: true, Ops: []string{"pup w/c 0", "pyr w/c", "pup x/a 0", "pyr x/a", "gcr 0 x/a pin x/a -", "pins"}},
+	// trigger 5: POST /pins of a file after its callback decided the deletions and before the run's commit: pin entries stay, chunks go
+	{ID: "fix-race-pin-evicted-before-commit", NT: true, Ops: []string{"pup w/c 0", "pyr w/c", "pup x/a 0", "pyr x/a", "gcr2 0 w/c x/a", "pins", "read w/c", "unpin w/c"}},
+	{ID: "fix-race-pin-before-commit-not-armed", NT: true, Ops: []string{"pup w/c 0", "pyr w/c", "pup x/a 0", "pyr x/a", "gcr2 0 x/a w/c", "pins"}},
 	{ID: "fix-dir-pinned-cache-shares-file", NT: true, Ops: []string{"up p/a+q/b 1", "pup q/b+s/c 0", "pyr q/b+s/c", "fetch q/b+s/c 0 1", "fetch q/b+s/c 1 1", "gc 1", "read p/a+q/b"}},
 }
 
@@ -45,7 +61,7 @@ func (prop) Gen(r *core.Rand, tier string) []core.Case {
 	}
 	cs := append([]core.Case(nil), fixed...)
 	for i := 0; i < n; i++ {
-		cfg := nodelite.GenConfig{MinOps: 6, MaxOps: 16, PinUploads: 45, Pins: 14, GC: 16, Cache: 16, Partial: i%2 == 0, Reads: 6, Raw: 8, Dirs: true, Budget: 7}
+		cfg := nodelite.GenConfig{MinOps: 6, MaxOps: 16, PinUploads: 45, Pins: 14, GC: 14, GCRace: 10, Cache: 18, Partial: i%2 == 0, Reads: 6, Raw: 8, Dirs: true, Budget: 7}
 		ops := nodelite.GenHistory(r.Fork(), cfg)
 		cs = append(cs, core.Case{ID: fmt.Sprintf("g%d", i), NT: nontrivial(ops), Ops: ops})
 	}
@@ -56,7 +72,7 @@ func nontrivial(ops []string) bool {
 	gc, stored, cached := false, false, false
 	for _, o := range ops {
 		switch {
-		case strings.HasPrefix(o, "gc "):
+		case strings.HasPrefix(o, "gc "), strings.HasPrefix(o, "gcr "), strings.HasPrefix(o, "gcr2 "):
 			gc = gc || cached || stored
 		case strings.HasPrefix(o, "up ") || strings.HasPrefix(o, "raw "):
 			stored = true
